@@ -104,7 +104,7 @@ prop("C04", ["PepitVerif/Props/C04.lean", "PepitVerif/Props/C04Suff.lean", "Pepi
 
 prop("C05", ["PepitVerif/Props/C05.lean", "PepitVerif/Math/MatricesSem.lean", "PepitVerif/Math/SparseSem.lean"],
      streams=[stream("collect+tee (sent list, dense matrices, MOSEK Task call list)", "collect", 120, 2500, env={"PEPV_TEE": "1", "STUBS": "1"}),
-              stream("examples (REAL programs: the operations every shipped example performs, traced at run time over 595 parameter tuples — what each example declares is what its solve sends; example run = replay on the library = Lean model)", "examples", 48, 595, offset=163)],
+              stream("examples (REAL programs: the operations every shipped example performs, traced at run time over 760 parameter tuples — what each example declares is what its solve sends; example run = replay on the library = Lean model)", "examples", 48, 760, offset=163)],
      direct=[oracle("c05_translators", 300, 6000), oracle("c05_sent", 40, 600), oracle("c11_backends", 32, 300, stubs=True)],
      trusted=["stand-in mosek module (records Task calls; harness/stubs/mosek)"])
 
@@ -121,7 +121,7 @@ prop("C07", ["PepitVerif/Props/C07.lean", "PepitVerif/Math/OracleInv.lean", "Pep
 prop("C08", ["PepitVerif/Props/C08.lean", "PepitVerif/Props/C08Gen.lean", "PepitVerif/Math/StepsSem.lean"],
      streams=[stream("steps (all 8 steps, every option, leaf/composite functions, leaf/combination starts)", "steps", 300, 6000, offset=59),
               stream("collect (side constraints recorded by steps on composite functions reach the solver, also when the same combination is written twice)", "collect", 100, 2000, env={"PEPV_TEE": "1", "STUBS": "1"}, offset=149),
-              stream("examples (REAL programs: the operations every shipped example performs, traced at run time over 595 parameter tuples — the primitive steps as the examples call them; example run = replay on the library = Lean model)", "examples", 48, 595, offset=167)],
+              stream("examples (REAL programs: the operations every shipped example performs, traced at run time over 760 parameter tuples — the primitive steps as the examples call them; example run = replay on the library = Lean model)", "examples", 48, 760, offset=167)],
      direct=[oracle("c08_steps", 300, 5000)],
      assumptions=["real_sound is proved for the proximal, linear-optimisation, inexact-gradient, exact line-search (smooth functions) and Bregman gradient steps; Bregman proximal, ε-subgradient and inexact-prox real sides are not formalised"])
 
@@ -130,7 +130,7 @@ prop("C09", ["PepitVerif/Props/C09.lean", "PepitVerif/Math/Certificate.lean", "P
               stream("cls (class constraints the examples rely on)", "cls", 100, 2000, offset=67),
               stream("collect+cvx (what the pipeline sends and records as sent; the real cvxpy wrapper)", "collect", 80, 1500, env={"PEPV_TEE": "1", "STUBS": "1"}, offset=89),
               stream("resolve (returned dual value rebuilt from the recorded list of sent constraints)", "resolve", 80, 1500, offset=97),
-              stream("examples (REAL programs: the operations every shipped example performs, traced at run time over 595 parameter tuples — the model every example hands to the solver is the one the Lean pipeline model builds from the same operations; example run = replay on the library = Lean model)", "examples", 64, 595, offset=173),
+              stream("examples (REAL programs: the operations every shipped example performs, traced at run time over 760 parameter tuples — the model every example hands to the solver is the one the Lean pipeline model builds from the same operations; example run = replay on the library = Lean model)", "examples", 64, 760, offset=173),
               stream("methods (the example scripts whose whole user-level model is specified in Lean, Model/Methods.lean — gradient-descent contraction, subgradient method, proximal gradient, gradient flow of a strongly convex function, the potential function of gradient descent, gradient flow of a convex function, the second potential function of gradient descent, accelerated gradient flow of a convex function, one Polyak step in distance and in function values — at parameter values drawn over the documented ranges: the objects the REAL script builds = the Lean specification the C09Methods theorems are about)", "methods", 24, 400, offset=191)],
      direct=[oracle("c09_runs", 33, 440), oracle("c03_members", 260, 2600)],
      
@@ -141,10 +141,10 @@ prop("C09", ["PepitVerif/Props/C09.lean", "PepitVerif/Math/Certificate.lean", "P
 prop("C10", ["PepitVerif/Props/C10.lean", "PepitVerif/Props/C09Methods.lean", "PepitVerif/Math/ClassForms.lean"],
      streams=[stream("tree (expression algebra the examples are written in)", "tree", 100, 1000, offset=71),
               stream("cls (class constraints the examples rely on, all parameter regimes)", "cls", 100, 1500, offset=101),
-              stream("examples (REAL programs: the operations every shipped example performs, traced at run time over 595 parameter tuples — suite tuples and neighbouring tuples of every example; example run = replay on the library = Lean model)", "examples", 64, 595, offset=179),
+              stream("examples (REAL programs: the operations every shipped example performs, traced at run time over 760 parameter tuples — suite tuples and neighbouring tuples of every example; example run = replay on the library = Lean model)", "examples", 64, 760, offset=179),
               stream("methods (the example scripts whose whole user-level model is specified in Lean, Model/Methods.lean — gradient-descent contraction, subgradient method, proximal gradient, gradient flow of a strongly convex function, the potential function of gradient descent, gradient flow of a convex function, the second potential function of gradient descent, accelerated gradient flow of a convex function, one Polyak step in distance and in function values — at parameter values drawn over the documented ranges: the objects the REAL script builds = the Lean specification the C09Methods theorems are about)", "methods", 24, 400, offset=193),
               stream("collect+cvx (an equivalent formulation may lean on what an LMI enforces: the real cvxpy wrapper couples every entry, above and below the diagonal)", "collect", 80, 1500, env={"PEPV_TEE": "1", "STUBS": "1"}, offset=197)],
-     direct=[oracle("c10_examples", 40, 103), oracle("c10_refs", 57, 600), oracle("c10_sweeps", 19, 190), oracle("c10_equivalent", 14, 14), oracle("c10_neighbours", 495, 600)],
+     direct=[oracle("c10_examples", 40, 103), oracle("c10_refs", 57, 600), oracle("c10_sweeps", 19, 190), oracle("c10_equivalent", 14, 14), oracle("c10_neighbours", 660, 700)],
      trusted=["hand transcription of 19 published closed forms and their validity ranges (lean/PepitModel/Ref.lean), validated against the pinned tree",
               "frozen reference tables harness/ref_table.json and harness/ref_neighbours.json (claim tight/upper per example at the suite tuples and at neighbouring tuples: other iteration counts, scaled parameters) generated from the pinned tree"],
      assumptions=["'SDP optimum = closed form for all parameters' is a theorem of the literature per family and is not formalised: this property is decided mostly by correspondence on parameter grids"])
@@ -166,7 +166,7 @@ prop("C12", ["PepitVerif/Props/C12.lean"],
               stream("cls in one interpreter history", "cls", 100, 2000, offset=29),
               stream("tree in one interpreter history (module-level null_point / null_expression as operands and accumulators)", "tree", 150, 3000, offset=103),
               stream("flow (the calls made to the solver, incl. the dimension-reduction stage, are the same whatever the verbosity)", "flow", 150, 2000, script="corr_c14.py", offset=157),
-              stream("examples (REAL programs: the operations every shipped example performs, traced at run time over 595 parameter tuples — all examples one after the other in one interpreter, each against a fresh model; example run = replay on the library = Lean model)", "examples", 48, 595, offset=181)],
+              stream("examples (REAL programs: the operations every shipped example performs, traced at run time over 760 parameter tuples — all examples one after the other in one interpreter, each against a fresh model; example run = replay on the library = Lean model)", "examples", 48, 760, offset=181)],
      direct=[oracle("c12_history", 12, 150), oracle("c12_types", 150, 150)])
 
 prop("C13", ["PepitVerif/Props/C13.lean", "PepitVerif/Props/C13Hist.lean"],
